@@ -186,6 +186,8 @@ def _roundtrip(ctx, sessions, with_index=False):
     except Exception as e:
         ctx.fail('writer-exception', exc=type(e).__name__, msg=str(e)[:120])
     segs, problems = wr.parse_structure(data.items, b'TDSm', True)
+    if not data.items:
+        raise PathAbort()           # every call was rejected: nothing was written, nothing to read
     try:
         tf = TdmsFile.read(data.to_stream())
     except PathAbort:
@@ -376,10 +378,20 @@ def _run_concrete(sessions, inp):
         for ses in sessions:
             with TdmsWriter(data, version=ses.get('version', 4712)) as w:
                 for seg in ses['segments']:
-                    w.write_segment([prog.obj(o) for o in seg])
+                    snap = ({k: dict(tag=v['tag'], values=list(v['values'])) for k, v in prog.channels.items()},
+                            {k: dict(v) for k, v in prog.props.items()}, list(prog.order))
+                    rejected = any(k == 'unsupported' for o in seg for (_, k) in (o[1] if o[0] == 'root' else o[2] if o[0] == 'group' else o[5]))
+                    try:
+                        w.write_segment([prog.obj(o) for o in seg])
+                    except TypeError:
+                        if not rejected:
+                            raise
+                        prog.channels, prog.props, prog.order = snap
     finally:
         wr.sym_str = old
     segs, _ = wr.parse_structure(list(data.getvalue()))
+    if not data.getvalue():
+        return None
     data.seek(0)
     tf = TdmsFile.read(data)
     try:
